@@ -202,3 +202,136 @@ def args_tuple(fn: Optional[pf.FuncDef], e: Optional[ast.expr]) -> Optional[List
         if len(appends) == 1 and isinstance(appends[0], (ast.Tuple, ast.List)):
             return list(appends[0].elts)
     return None
+
+
+# --------------------------------------------------------------------------------------
+# the "is some self-or-ancestor group cancelled" walk
+# --------------------------------------------------------------------------------------
+
+
+def ancestor_walk(sel: N) -> Optional[Dict[str, Any]]:
+    """Recognise   job_group_self_and_ancestors S (INNER) JOIN job_groups_cancelled C
+                   ON S.batch_id = C.id AND S.ancestor_id = C.job_group_id   WHERE S.batch_id = X AND S.job_group_id = Y
+    (conditions may sit in ON or WHERE).  Returns {'batch': X, 'group': Y} (SQL nodes) or None."""
+    if sel is None or sel.kind != 'select' or sel.frm is None:
+        return None
+    tabs = [t for t in sf.from_tables(sel.frm) if t.kind == 'table']
+    if len(tabs) != 2 or len(sf.from_tables(sel.frm)) != 2:
+        return None
+    names = {(t.alias or t.name).lower(): t.name.lower() for t in tabs}
+    if sorted(names.values()) != ['job_group_self_and_ancestors', 'job_groups_cancelled']:
+        return None
+    if any(j.jtype != 'INNER' for j in sel.frm.joins):
+        return None
+    sa = [a for a, t in names.items() if t == 'job_group_self_and_ancestors'][0]
+    ca = [a for a, t in names.items() if t == 'job_groups_cancelled'][0]
+    conj = sf.conjuncts(sel.where)
+    for j in sel.frm.joins:
+        conj += sf.conjuncts(j.on)
+
+    def side(e: N) -> Optional[str]:
+        if e.kind != 'col':
+            return None
+        if len(e.parts) > 1:
+            q = e.parts[-2].lower()
+            if q == sa:
+                return 'S.' + e.parts[-1].lower()
+            if q == ca:
+                return 'C.' + e.parts[-1].lower()
+            return None
+        # unqualified: only S has ancestor_id; both have job_group_id; C has id; S has batch_id
+        n = e.parts[0].lower()
+        if n == 'ancestor_id':
+            return 'S.ancestor_id'
+        if n == 'id':
+            return 'C.id'
+        return None
+
+    have = set()
+    batch = group = None
+    extra = []
+    for c in conj:
+        if not (c.kind == 'bin' and c.op == '='):
+            extra.append(c)
+            continue
+        l, r = side(c.left), side(c.right)
+        pair = frozenset(x for x in (l, r) if x)
+        if pair == {'S.batch_id', 'C.id'}:
+            have.add('b')
+        elif pair == {'S.ancestor_id', 'C.job_group_id'}:
+            have.add('g')
+        elif l == 'S.batch_id' and r is None:
+            batch = c.right
+        elif r == 'S.batch_id' and l is None:
+            batch = c.left
+        elif l == 'S.job_group_id' and r is None:
+            group = c.right
+        elif r == 'S.job_group_id' and l is None:
+            group = c.left
+        elif l is None and r is None and c.left.kind == 'col' and len(c.left.parts) == 1 and c.left.parts[0].lower() == 'batch_id' and batch is None:
+            batch = c.right  # unqualified batch_id (only S has that column)
+        else:
+            extra.append(c)
+    if have != {'b', 'g'} or batch is None or group is None or extra:
+        return None
+    return {'batch': batch, 'group': group}
+
+
+def root_lookup(sel: N) -> Optional[Dict[str, Any]]:
+    """SELECT .. FROM job_groups_cancelled WHERE id = X AND job_group_id = R   (batch-level question)."""
+    if sel is None or sel.kind != 'select' or sel.frm is None:
+        return None
+    tabs = sf.from_tables(sel.frm)
+    if len(tabs) != 1 or tabs[0].kind != 'table' or tabs[0].name.lower() != 'job_groups_cancelled':
+        return None
+    b = g = None
+    for c in sf.conjuncts(sel.where):
+        if c.kind == 'bin' and c.op == '=' and c.left.kind == 'col':
+            n = c.left.parts[-1].lower()
+            if n == 'id':
+                b = c.right
+            elif n == 'job_group_id':
+                g = c.right
+            else:
+                return None
+        else:
+            return None
+    if g is None:
+        return None
+    return {'batch': b, 'group': g}
+
+
+def cancelled_sites(st: N):
+    """Every SELECT node inside st whose FROM names job_groups_cancelled directly."""
+    for n in st.walk():
+        if n.kind == 'select' and n.frm is not None:
+            if any(t.kind == 'table' and t.name.lower() == 'job_groups_cancelled' for t in sf.from_tables(n.frm)):
+                yield n
+
+
+def enclosing_ifs(module: pf.Module, node: ast.AST, stop: Optional[ast.AST] = None) -> List[Tuple[ast.If, bool]]:
+    """(If node, in_body?) for every `if` enclosing node up to `stop`."""
+    par = module.parents()
+    out = []
+    cur = node
+    p = par.get(cur)
+    while p is not None and p is not stop:
+        if isinstance(p, ast.If):
+            in_body = any(cur is s or any(cur is x for x in ast.walk(s)) for s in p.body)
+            out.append((p, in_body))
+        cur = p
+        p = par.get(cur)
+    return out
+
+
+def enclosing_loops(module: pf.Module, node: ast.AST) -> List[ast.AST]:
+    par = module.parents()
+    out = []
+    p = par.get(node)
+    while p is not None:
+        if isinstance(p, (ast.For, ast.AsyncFor)):
+            # node must be in the body, not the iter
+            if not any(node is x for x in ast.walk(p.iter)):
+                out.append(p)
+        p = par.get(p)
+    return out
